@@ -152,6 +152,7 @@ def handle (args : List String) : String :=
         ++ " nobases=" ++ b (noBases proj) ++ " nostarinclass=" ++ b (noStarInClass proj)
         ++ " noreexport=" ++ b (noReexport proj) ++ " roots=" ++ b (rootsReserved proj)
         ++ " names=" ++ b (namesOk proj) ++ " unique=" ++ b (namesUnique proj) ++ " basesne=" ++ b (basesNonempty proj)
+        ++ " classimports=" ++ b (classImportsUnique proj)
     | none => "bad-request"
   | _ => "bad-op"
 
